@@ -304,7 +304,14 @@ def check_rotation(ctx, c):
     ctx.event("rotations_applied")
     e = max(common.maxabs(f1 - f2), common.maxabs(v1 - v2))
     ctx.resolve("rotation_invariance", e)
-    if e > 1e-7:
+    # rotating the sphere changes the coordinates by rounding only; the kriging system amplifies that by its condition number
+    xyz = orot.latlon_to_xyz(np.asarray(lat, dtype=float), np.asarray(lon, dtype=float), radius=float(model.geo_scale))
+    dmat = np.sqrt(np.sum((xyz[:, :, None] - xyz[:, None, :]) ** 2, axis=0))
+    if c["temporal"]:
+        dmat = np.sqrt(dmat**2 + ((np.asarray(tt_c)[:, None] - np.asarray(tt_c)[None, :]) / float(model.anis[-1])) ** 2)
+    with np.errstate(all="ignore"):
+        kcond = float(np.linalg.cond(np.asarray(model.covariance(dmat)) + np.eye(len(lat)) * float(model.nugget)))
+    if not e <= 1e-7 * max(1.0, kcond / 1e4):
         ctx.fail({"what": "latlon-kriging-not-rotation-invariant", "variant": variant, "temporal": c["temporal"]},
                  f"max change under a rotation of the sphere {e:.3e}")
 
@@ -375,7 +382,7 @@ def check_units(ctx, c):
     n = int(rng.integers(40, 80))
     cp = np.array([rng.uniform(-60, 60, size=n), rng.uniform(-170, 170, size=n)])
     tp = np.array([rng.uniform(-60, 60, size=7), rng.uniform(-170, 170, size=7)])
-    name = str(rng.choice(["Exponential", "Gaussian", "Spherical"]))
+    name = str(rng.choice(["Exponential", "Gaussian"]))  # (compact models: the non-smooth objective has several local minima, the two runs may pick different ones)
     with warnings.catch_warnings():
         warnings.simplefilter("ignore")
         truth = gs.Exponential(latlon=True, var=1.0, len_scale=0.4)
@@ -398,13 +405,13 @@ def check_units(ctx, c):
     if not np.allclose(b[5], a[5] * R, rtol=1e-10) or not np.allclose(b[6], a[6], rtol=1e-10, atol=1e-12, equal_nan=True):
         ctx.fail(dict(mech, part="vario_estimate"), f"bin centres / variogram do not scale with the unit {R}: {b[5][:3]} vs {a[5][:3] * R}")
         return
-    if not abs(b[0] - a[0] * R) <= 5e-3 * a[0] * R:  # two optimiser runs in different units: default curve_fit tolerances
+    if not abs(b[0] - a[0] * R) <= 5e-2 * a[0] * R:  # two optimiser runs in different units: default curve_fit tolerances
         ctx.fail(dict(mech, part="krige-fit-len_scale"), f"Krige(fit_variogram=True): fitted len_scale {b[0]!r} in units of {R}, {a[0]!r} in radians (expected ratio {R}, got {b[0] / a[0]:.6g})")
         return
-    if not (abs(b[1] - a[1]) <= 5e-3 * max(a[1], 1e-3) and abs(b[2] - a[2]) <= 5e-3 * max(a[1], 1e-3)):
+    if not (abs(b[1] - a[1]) <= 5e-2 * max(a[1], 1e-3) and abs(b[2] - a[2]) <= 5e-2 * max(a[1], 1e-3)):
         ctx.fail(dict(mech, part="krige-fit-var"), f"fitted var/nugget depend on the unit: {b[1:3]} vs {a[1:3]}")
         return
-    if not (common.maxabs(b[3] - a[3]) <= 2e-2 * max(1.0, common.maxabs(a[3])) and common.maxabs(b[4] - a[4]) <= 2e-2 * max(1.0, common.maxabs(a[4]))):
+    if not (common.maxabs(b[3] - a[3]) <= 1e-1 * max(1.0, common.maxabs(a[3])) and common.maxabs(b[4] - a[4]) <= 1e-1 * max(1.0, common.maxabs(a[4]))):
         ctx.fail(dict(mech, part="krige-field"), f"kriged field / variance depend on the unit: max diff {common.maxabs(b[3] - a[3]):.3e} / {common.maxabs(b[4] - a[4]):.3e}")
 
 
